@@ -24,7 +24,10 @@ RULE = ("layouts written through the real cesium writer: 1-3 index channels x 0-
         "samples on string/json channels (preferably last in a frame/domain), 40% iterated after Close+Open (offset tables "
         "rebuilt from the files), 10% "
         "with one illegal step; then 3-25 iterator commands (30% of the cases arm a one-shot read fault on the index channel's data "
-        "files before one or two steps; every frame is kept by reference and re-examined after the last command) on one channel: positions from sample stamps, +-1, writer "
+        "files before one or two steps; every frame is kept by reference and re-examined after the last command) on one channel; 5% of the cases continue with a CONCURRENT phase: 4-8 goroutines, each running its own command sequence "
+        "10-30 times on a fresh iterator over a channel of the same index group, 60% with a writer of that group committing 10-40 "
+        "frames later than every bound (every outcome judged by the monitor; compared with the sequential model when no writer runs); "
+        "30 (thorough 200) such cases run once more under the Go race detector; positions from sample stamps, +-1, writer "
         "starts, 0, MAX; spans {1,2,gap,gap+-1,domain length,whole range,MAX}; chunk {1,2,3,7,100}. Non-trivial = the "
         "iterated channel holds >=2 committed sessions or a rollover-size cap, and the sequence has both a forward and "
         "a backward step and at least one step returning data; distinct by hash.")
@@ -33,7 +36,9 @@ TRUSTED = ["hook cesium/export_verif_c10.go (VerifOpenUnaryIterator = uDB.OpenIt
            "stored sample has)"]
 ASSUMES = ["time stamps and spans within [0, 2^63-1]; int64 wrap-around modelled only at ref+1 / End-1 of the domain iterator bounds",
            "one writer session open at a time (file acquisition is then deterministic)",
-           "variable-length offset cache is transparent (rebuilt tables equal published ones)"]
+           "variable-length offset cache is transparent (rebuilt tables equal published ones)",
+           "concurrency: only iterators (and one writer beyond their bounds) of one index group at a time; interleavings are "
+           "whatever the scheduler produces within 10-30 rounds per goroutine, not enumerated"]
 PARTIAL = ("C10_step_exact_partial / C10_full_traversal_partial carry the visible hypothesis layout_ok (ascending index stamps, sorted "
            "data domains, each data domain within a contiguous run of index domains with one sample per index stamp; decidable "
            "check layout_okb proved sound, satisfied by every generated layout — see layout_guard_sample); that legal histories "
@@ -181,7 +186,64 @@ def gen_case(rng, tier, backward_auto=False):
         if rng.random() < 0.3:
             ops = add_faults(ops, rng, pos)
         ops = avoid_known(ops, rng)
-    return {"setup": setup, "key": key, "bounds": bounds, "chunk": chunk, "ops": ops}
+    case = {"setup": setup, "key": key, "bounds": bounds, "chunk": chunk, "ops": ops}
+    if not backward_auto and not malformed and rng.random() < CONC_SHARE:
+        add_conc(case, rng)
+    return case
+
+
+CONC_SHARE = 0.05
+
+
+def add_conc(case, rng):
+    """Concurrent phase after the sequential commands: 4-8 goroutines, each running its own
+    command sequence `rounds` times on a fresh iterator over a channel of the iterated channel's
+    index group (they share one index), while (60%) one writer of that group commits frames
+    later than every stored sample and later than every worker's bounds. The content inside the
+    bounds does not change, so every round must produce the sequential model's outcome."""
+    setup = case["setup"]
+    chans = {c["key"]: c for c in setup["channels"]}
+    idx = chans[case["key"]]["index"] or case["key"]
+    group = [k for k, c in chans.items() if k == idx or c["index"] == idx]
+    written = {kv["k"] for o in setup["script"] if o["op"] == "write" for kv in o["frame"]}
+    cand = [k for k in group if k in written] or [case["key"]]
+    allst, starts = cesgen.sample_stamps(setup)
+    top = max(list(allst) + list(starts) + [0])
+    if top > MAXTS // 2:
+        return
+    wstart = top + rng.choice([1, 2, 10, 1000])
+    writer = []
+    if rng.random() < 0.6:
+        data = [k for k in group if k != idx]
+        writer.append({"op": "open", "keys": [idx] + data, "start": wstart, "auto": rng.random() < 0.3})
+        vs = cesgen.ValueSrc(setup["channels"], rng)
+        t = wstart
+        for _ in range(rng.randrange(10, 40)):
+            n = rng.randrange(1, 5)
+            st = [t + i * rng.choice([1, 2]) for i in range(n)]
+            st = sorted(set(st))
+            t = st[-1] + 1
+            fr = [{"k": idx, "v": st}] + [{"k": k, "v": vs.take(k, len(st))} for k in data]
+            writer.append({"op": "write", "frame": fr})
+            writer.append({"op": "commit"})
+        writer.append({"op": "close"})
+    workers = []
+    for _ in range(rng.randrange(4, 9)):
+        key = rng.choice(cand)
+        pos, _ = cesgen.positions(setup, key)
+        pos = [p for p in pos if p <= wstart]
+        if rng.random() < 0.6:
+            bounds = [0, wstart if writer else MAXTS]
+        else:
+            a, b = sorted([rng.choice(pos), rng.choice(pos)])
+            bounds = [a, b]
+        ops = avoid_known(gen_ops(rng, setup, key, bounds), rng)
+        ops = [o for o in ops if o["c"] != "set_bounds"] if writer else ops
+        if ops[0]["c"] not in SEEKS:
+            ops.insert(0, {"c": rng.choice(["seek_first", "seek_last"])})
+            ops = avoid_known(ops, rng)
+        workers.append({"key": key, "bounds": bounds, "chunk": rng.choice([1, 2, 3, 7, 100]), "ops": ops})
+    case["conc"] = {"workers": workers, "rounds": rng.choice([10, 20, 30]), "writer": writer}
 
 
 def gen_cases(rng, tier, n):
@@ -193,17 +255,37 @@ def harness_violation(case, r):
         return "panic in the real iterator/writer: " + r["panic"][:300]
     if r.get("fatal"):
         return "harness could not set the case up: " + r["fatal"][:300]
+    for n, w in enumerate(r.get("conc") or []):
+        if w.get("panic"):
+            return "panic in the real iterator of concurrent worker %d: %s" % (n, w["panic"][:300])
+        if w.get("fatal"):
+            return "concurrent worker %d could not open its iterator: %s" % (n, w["fatal"][:300])
     return None
+
+
+def c_late(outs):
+    return ";".join("[%s]" % ";".join(cesgen.c_series(x) for x in (o["late"] if o.get("late") is not None else o["ser"]))
+                    for o in outs)
+
+
+def c_conc(case, r):
+    """the distinct outcomes of every worker of the concurrent phase"""
+    qs = []
+    for w, wr in zip((case.get("conc") or {}).get("workers", []), r.get("conc") or []):
+        for outs in wr["variants"]:
+            qs.append("Conc %d %s %s [%s] [%s] [%s] %s" % (w["key"], c_tr(*w["bounds"]), z(w["chunk"]),
+                      ";".join(c_cmd(o) for o in w["ops"]), ";".join(c_obs(o) for o in outs), c_late(outs),
+                      "false" if case["conc"]["writer"] else "true"))
+    return ";".join(qs)
 
 
 def to_coq(case, r):
     s = case["setup"]
-    late = ";".join("[%s]" % ";".join(cesgen.c_series(x) for x in (o["late"] if o.get("late") is not None else o["ser"]))
-                    for o in r["outs"])
-    return "Case %s %s %s %s %d %s %s [%s] [%s] [%s]" % (
+    return "Case %s %s %s %s %d %s %s [%s] [%s] [%s] [%s]" % (
         z(s["cap"]), cesgen.c_chans(s["channels"]), cesgen.c_script(s["script"]), cesgen.c_sres(r["script"]),
         case["key"], c_tr(*case["bounds"]), z(case["chunk"]),
-        ";".join(c_cmd(o) for o in case["ops"]), ";".join(c_obs(o) for o in r["outs"]), late)
+        ";".join(c_cmd(o) for o in case["ops"]), ";".join(c_obs(o) for o in r["outs"]), c_late(r["outs"]),
+        c_conc(case, r))
 
 
 def nontrivial(case, r):
@@ -238,6 +320,15 @@ def histogram(case, r):
         ks.append("series=%d" % min(len(o["ser"]), 3))
     dt = next(c["dt"] for c in case["setup"]["channels"] if c["key"] == case["key"])
     ks.append("dt=" + dt)
+    if case.get("conc"):
+        ks.append("concurrent_phase")
+        ks.append("concurrent_workers=%d" % len(case["conc"]["workers"]))
+        if case["conc"]["writer"]:
+            ks.append("concurrent_writer")
+        if any(x["err"] for x in r.get("writer") or []):
+            ks.append("concurrent_writer_error")
+        for w in r.get("conc") or []:
+            ks.append("concurrent_outcomes_per_worker=%d" % len(w["variants"]))
     return ks
 
 
@@ -284,6 +375,10 @@ def tags(case, r):
     if not d:
         return set()
     ops = case["ops"]
+    conc = [codes for n, codes in d if n >= 1000]
+    if conc:
+        # a worker of the concurrent phase is rejected: never the known finding
+        return {"concurrent-clause-%s" % "-".join(map(str, sorted({x for cs in conc for x in cs})))}
     for n, codes in d:
         if codes != [7] or ops[n]["c"] != "seek_last":
             return {"clause-%s" % "-".join(map(str, codes))}
@@ -334,6 +429,7 @@ def extra(ctx):
                 continue
         check.report_case_violation(ctx, cases[i], res.get(i), "monitor ok_C10 rejects a backward automatic traversal")
     guard_coverage(ctx)
+    race_phase(ctx)
     onlyM = [i for i in M if i not in V]
     if onlyM:
         i = onlyM[0]
@@ -342,6 +438,34 @@ def extra(ctx):
                                                        "model": model_dump(cases[i], res.get(i))})
         ctx.violations.append({"kind": "V2", "what": "correspondence corr:C10 broke on %d backward traversals" % len(onlyM),
                                "replay": rp, "found_input": False})
+
+
+RACE_CASES = {"quick": 30, "thorough": 200}
+
+
+def race_phase(ctx):
+    """the concurrent phase once more on a harness built with the Go race detector: iterators of
+    one index group (and a committing writer) must not share unsynchronised state"""
+    import check
+    binp, blog = vlib.go_build(MODULE, PKG, BIN, race=True)
+    if binp is None:
+        ctx.notes.append("race-detector build of the harness failed; the concurrent phase ran without it: %s" % blog[-300:])
+        return
+    rng = random.Random(ctx.seed * 7919 + 11)
+    cases = []
+    while len(cases) < RACE_CASES[ctx.tier]:
+        c = gen_case(rng, ctx.tier)
+        if c.get("conc"):
+            c["id"] = len(cases)
+            cases.append(c)
+    res = vlib.run_harness(binp, cases, timeout=600, procs=8, env={"GORACE": "halt_on_error=1"})
+    races = [i for i in range(len(cases)) if "DATA RACE" in ((res.get(i) or {}).get("panic") or "")]
+    ctx.extra_cov["race_detector_concurrent_cases"] = len(cases)
+    ctx.extra_cov["race_detector_reports"] = len(races)
+    for i in races[:1]:
+        check.report_case_violation(ctx, cases[i], res.get(i),
+                                    "the Go race detector reports a data race between concurrent iterators / a committing "
+                                    "writer of one index group (concurrent phase of the case)")
 
 
 def model_dump(case, r):
@@ -357,7 +481,7 @@ def guard_coverage(ctx, n=120):
     terms = []
     for c in cases:
         s = c["setup"]
-        terms.append("Case %s %s %s [] %d %s %s [] [] []" % (z(s["cap"]), cesgen.c_chans(s["channels"]),
+        terms.append("Case %s %s %s [] %d %s %s [] [] [] []" % (z(s["cap"]), cesgen.c_chans(s["channels"]),
                      cesgen.c_script(s["script"]), c["key"], c_tr(*c["bounds"]), z(c["chunk"])))
     out = coq_print(PID, COQ_IMPORTS, COQ_EXTRA + "\nEval vm_compute in map in_guard [%s]." % ";\n".join(terms), timeout=600)
     out = re.sub(r"\s+", " ", out)
